@@ -31,7 +31,7 @@ def run(ctx):
     jobs = []
     reps = 4 if ctx.quick() else 16
     comps = ["zlib", "none", "zstd"] if ctx.quick() else gen.COMPS
-    for sc in ("writers", "sorters", "mixed", "readers", "single"):
+    for sc in ("writers", "sorters", "mixed", "readers", "single", "abandon"):
         for comp in comps:
             for k in range(reps):
                 jobs.append((sc, comp, ctx.seed % 10000 + k * 13 + len(jobs)))
